@@ -42,6 +42,7 @@ type Loader struct {
 	rootLocation string
 
 	visitedPathItemRefs map[string]struct{}
+	resolving           int // depth of ResolveRefsIn calls in progress
 
 	visitedDocuments map[string]*T
 
@@ -217,9 +218,13 @@ func (loader *Loader) ResolveRefsIn(doc *T, location *url.URL) (err error) {
 		loader.Context = context.Background()
 	}
 
-	if loader.visitedPathItemRefs == nil {
+	// a call that is not part of a load in progress (documents met on the way are resolved by nested calls) starts
+	// afresh: what a failed load left marked as being resolved would otherwise stay open for ever
+	if loader.visitedPathItemRefs == nil || loader.resolving == 0 {
 		loader.resetVisitedPathItemRefs()
 	}
+	loader.resolving++
+	defer func() { loader.resolving-- }()
 
 	if components := doc.Components; components != nil {
 		for _, name := range componentNames(components.Headers) {
